@@ -220,7 +220,7 @@ pub fn fun(k: u8, a: L) -> L { L { v: a.v.wrapping_mul(5) ^ k.wrapping_mul(91), 
     return "\n".join(out) + "\n"
 
 
-def c08_prog(name, kind, nfields, ops, generic=False, bounds=None, repr=None):
+def c08_prog(name, kind, nfields, ops, generic=False, bounds=None, repr=None, other_first=None):
     """struct with nfields fields of type L deriving the given operator traits; one harness per (trait, form)"""
     fty = "T" if generic else "L"
     g = "<T>" if generic else ""
@@ -243,7 +243,15 @@ def c08_prog(name, kind, nfields, ops, generic=False, bounds=None, repr=None):
     else:
         decl = "pub struct X%s(%s);" % (g, ", ".join(fattr(i) + "pub " + fty for i, _ in enumerate(names)))
     # repr: a representation attribute of the user (`packed` with alignment-1 fields is accepted by the pinned tree); it must not change what the operators do
-    td = in_def("#[derive_ex::derive_ex(%s)]\n#[derive(Clone, Copy, Debug, PartialEq)]\n%s%s\n" % (lst, ("#[repr(%s)]\n" % repr) if repr else "", decl))
+    std = "Clone, Copy, Debug, PartialEq"
+    if other_first:
+        # another trait of the same request, listed before the operators, whose helper attribute sits on field 1 (`#[debug(ignore)]`,
+        # `#[default(..)]`): helper attributes of one trait do not change what the operators do to that field
+        trait, helper = other_first
+        lst = trait + ", " + lst
+        std = ", ".join(t for t in std.split(", ") if t != trait)
+        decl = decl.replace("pub ", helper + " pub ", 2).replace(helper + " pub struct", "pub struct", 1) if kind != "named" else decl.replace("pub %s:" % names[1], "%s pub %s:" % (helper, names[1]), 1)
+    td = in_def("#[derive_ex::derive_ex(%s)]\n#[derive(%s)]\n%s%s\n" % (lst, std, ("#[repr(%s)]\n" % repr) if repr else "", decl))
     acc = (lambda v, i: "%s.%s" % (v, names[i])) if kind == "named" else (lambda v, i: "%s.%d" % (v, i))
     if kind == "unit":
         mk = "impl Mk for X { fn mk<S: Src>(s: &mut S) -> Self { X } }\n"
@@ -522,9 +530,12 @@ C11_FIELD_CASES = [
 ]
 
 
-def c11_prog(name, rng, entry):
-    is_enum = rng.random() < 0.5
+def c11_prog(name, rng, entry, cover=None):
+    """cover: a queue of field cases that must be used (a struct takes them in order): every case of the table occurs in every run"""
+    is_enum = rng.random() < 0.5 and not cover
     def mkfields(kind):
+        if cover:
+            return [cover.pop(0) for _ in range(min(len(cover), 4))]
         n = 0 if kind == "unit" else rng.randint(0, 3)
         return [rng.choice(C11_FIELD_CASES) for _ in range(n)]
     def decl(kind, fs, pub):
@@ -561,11 +572,11 @@ def c11_prog(name, rng, entry):
         item = "pub enum X { %s }" % ", ".join(body)
         desc = "enum default=%s%s: %s" % (vs[dv][0], "" if mark else "(single, unmarked)", item)
     else:
-        kind = rng.choice(["unit", "tuple", "named"])
+        kind = rng.choice(["unit", "tuple", "named"]) if not cover else rng.choice(["tuple", "named"])
         fs = mkfields(kind)
         ref = ctor("X", kind, fs)
         item = "pub struct X%s%s" % (decl(kind, fs, "pub "), "" if kind == "named" else ";")
-        if rng.random() < 0.2:
+        if rng.random() < 0.2 and cover is None:
             tl = "X::new()"
         desc = "struct: " + item
     tattr = ""
@@ -833,7 +844,13 @@ def c10_prog(name, rng, entry, first_name=None):
             return "pub enum X%s { %s }" % (gg, ", ".join(v[0] + body(v, "", twin) for v in vs))
         v = vs[0]
         return "pub struct X%s%s%s" % (gg, body(v, "pub ", twin), "" if v[1] == "named" else ";")
-    head = "#[derive_ex::derive_ex(Debug)]\n" if entry == "attr" else "#[derive(derive_ex::Ex)]\n#[derive_ex(Debug)]\n"
+    # Debug alone, or next to another trait of the same request (before / after it, in one list or in a sibling attribute): the
+    # `#[debug(..)]` helper attributes mean the same
+    lists = rng.choice([["Debug"], ["Debug"], ["Debug, Clone"], ["Clone, Debug"], ["Debug", "Clone"], ["Clone", "Debug"], ["Debug, Clone, PartialEq"]])
+    if entry == "attr":
+        head = "#[derive_ex::derive_ex(%s)]\n" % lists[0] + "".join("#[derive_ex(%s)]\n" % l for l in lists[1:])
+    else:
+        head = "#[derive(derive_ex::Ex)]\n" + "".join("#[derive_ex(%s)]\n" % l for l in lists)
     # the item lives in a module where a blanket-implemented trait with `&self` methods named like the builder methods is in scope
     # (method-call syntax on a by-value receiver would pick them before the inherent `&mut self` methods); the twin sees it too
     td = "pub mod def {\n    #[allow(unused_imports)] use crate::support::*;\n    #[allow(unused_imports)] use crate::support::Hijack as _;\n    #[allow(unused_imports)] use crate::support::hijackv::{HijackV1 as _, HijackV2 as _};\n    " + head.replace("\n", "\n    ") + item(False) + "\n}\npub use def::X;\n"
